@@ -43,10 +43,10 @@ def materialize_init(args, kwargs):
     """Converter.__init__(self, records, ...): turn a one-shot iterable into a list."""
     if len(args) >= 2:
         if not isinstance(args[1], (list, tuple)):
-            args = (args[0], list(args[1]), *args[2:])
+            args = (args[0], probe.one_shot_or_list(args[1]), *args[2:])
     elif "records" in kwargs and not isinstance(kwargs["records"], (list, tuple)):
         kwargs = dict(kwargs)
-        kwargs["records"] = list(kwargs["records"])
+        kwargs["records"] = probe.one_shot_or_list(kwargs["records"])
     return args, kwargs
 
 
@@ -54,7 +54,7 @@ class ConstructMonitor(Monitor):
     name = "construct"
 
     def pre(self, fn, args, kwargs):
-        records = args[1] if len(args) >= 2 else kwargs.get("records")
+        records = probe.items_of(args[1] if len(args) >= 2 else kwargs.get("records"))
         Record = api().Record
         if records is None or not all(isinstance(r, Record) for r in records):
             out_of_domain(self.name, "not-records")
